@@ -1,5 +1,7 @@
 import Proofs.C17.PowRound
 import Proofs.C17.Merkle
+import Proofs.C17.Golomb
+import Model.C17.Bip158
 /-!
 # C17 — block commitments: merkle roots, proofs, filters, compact blocks and targets
 
@@ -178,6 +180,73 @@ example : rootAndMutated (fun a b : Nat => 10 * a + b) [1, 2, 3, 3] = some (153,
 example : rootFromBranch (fun a b : Nat => 10 * a + b) 3 [3, 12] 3 = .error .mutated := by decide
 
 end Merkle
+
+/-! ## T4–T5 — Golomb-Rice coded sets (BIP158), for every `P` -/
+
+section Gcs
+open Btc.Golomb
+
+/-- T4 (code word): `_golomb_decode` inverts `_golomb_encode` and leaves the rest of the stream. -/
+theorem golomb_decode_encode (p v : Nat) (rest : List Bool) :
+    golombDecode p (golombEncode v p ++ rest) = .ok (v, rest) :=
+  golombDecode_encode p v rest
+
+/-- T4 (writer/reader): flushing pads with fewer than eight zero bits and the reader sees the written bits. -/
+theorem bit_writer_reader (bits : List Bool) :
+    ∃ k, k < 8 ∧ unpack (pack bits) = bits ++ List.replicate k false :=
+  unpack_pack bits
+
+/-- T4 (`assert_exhausted`): accepted exactly when fewer than eight bits remain and all are zero. -/
+theorem assert_exhausted_iff (bits : List Bool) :
+    exhausted bits = .ok () ↔ bits.length < 8 ∧ valOf bits = 0 :=
+  exhausted_iff bits
+
+/-- T4 (set): for every sorted list of values below the bound, every `P`: decoding the coded set gives
+    the list back (so `element_hashes` of a built filter is the sorted mapped set, and the declared
+    count, the range check and the padding rule all accept what the writer wrote). -/
+theorem gcs_decode_encode (p upper : Nat) (vs : List Nat) (hs : List.Pairwise (· ≤ ·) vs)
+    (hb : ∀ v ∈ vs, v < upper) : decodeSet p upper vs.length (encodeSet p vs) = .ok vs :=
+  decodeSet_encodeSet p upper vs hs hb
+
+/-- T5 (merge walk): over sorted targets and sorted values `match_any`'s walk hits iff they intersect. -/
+theorem match_walk_correct (vs ts : List Nat) (hts : List.Pairwise (· ≤ ·) ts) (hvs : List.Pairwise (· ≤ ·) vs) :
+    walk ts vs = .hit ↔ ∃ x, x ∈ ts ∧ x ∈ vs :=
+  walk_hit_iff vs ts hts hvs
+
+/-- T5 (`match_any` on a built set): true exactly when some (hashed) target is among the coded values. -/
+theorem match_any_correct (p upper : Nat) (vs targets : List Nat) (hs : List.Pairwise (· ≤ ·) vs)
+    (hb : ∀ v ∈ vs, v < upper) (ht : List.Pairwise (· ≤ ·) targets) :
+    matchAny p upper vs.length (encodeSet p vs) targets = .ok (decide (∃ x, x ∈ targets ∧ x ∈ vs)) :=
+  matchAny_encodeSet p upper vs targets hs hb ht
+
+/-- T5 (no false negatives), for any key / any hash-to-range map `hr` into `[0, N·M)`: the filter coded
+    from the sorted images of a list of elements matches every one of them. -/
+theorem filter_no_false_negative (p M : Nat) (hr : Bytes → Nat) (es : List Bytes) (e : Bytes)
+    (hrange : ∀ x ∈ es, hr x < es.length * M) (he : e ∈ es) :
+    matchAny p (es.length * M) es.length (encodeSet p ((es.map hr).mergeSort (· ≤ ·))) [hr e] = .ok true := by
+  have hsorted : List.Pairwise (· ≤ ·) ((es.map hr).mergeSort (· ≤ ·)) := by
+    have := List.pairwise_mergeSort (le := fun a b : Nat => decide (a ≤ b))
+      (fun a b c hab hbc => by simp at *; omega) (fun a b => by simp; omega) (es.map hr)
+    simpa using this
+  have hperm := List.mergeSort_perm (es.map hr) (fun a b : Nat => decide (a ≤ b))
+  have hlen : ((es.map hr).mergeSort (· ≤ ·)).length = es.length := by
+    simp
+  have hb : ∀ v ∈ (es.map hr).mergeSort (· ≤ ·), v < es.length * M := by
+    intro v hv
+    have : v ∈ es.map hr := hperm.mem_iff.mp hv
+    obtain ⟨x, hx, rfl⟩ := List.mem_map.mp this
+    exact hrange x hx
+  have hm : hr e ∈ (es.map hr).mergeSort (· ≤ ·) := hperm.mem_iff.mpr (List.mem_map.mpr ⟨e, he, rfl⟩)
+  have := no_false_negative p (es.length * M) _ (hr e) hsorted hb hm
+  rw [hlen] at this
+  exact this
+
+example : encodeSet 2 [1, 6, 6, 11] = [0x32, 0x24] := by decide
+example : decodeSet 2 100 4 [0x32, 0x24] = .ok [1, 6, 6, 11] := by decide
+example : decodeSet 2 100 4 [0x32, 0x25] = .error .padding := by decide
+example : walk [3, 6] [1, 6, 6, 11] = .hit := by decide
+
+end Gcs
 
 -- non-vacuity: mainnet genesis bits, a sign-bit case, an overflow, a wrap-free retarget
 example : Gen.Pow.target_from_bits [0x1d, 0x00, 0xff, 0xff] =
